@@ -180,10 +180,10 @@ theorem removeLoop_safe {T : Nat → Option Block} (anc : Block) :
 /-- what `insertB ∘ insertA` gives a node that cannot die -/
 theorem insertAB_safe {T : Nat → Option Block} {s : St} {b y : Block} {c : List Block} (hs : Safe s)
     (inv : Inv T s.disk s.mem c) (hp : b.pre = y.hash) (hy : c.head? = some y) (hh : y.height < b.height)
-    (hn : s.disk.blocks b.hash = none) (hT : T b.hash = some b) :
+    (hn : s.disk.blocks b.hash = none) (hT : T b.hash = some b) (hfresh : ∀ z ∈ c, ∀ t ∈ b.txs, t ∉ z.txs) :
     Safe (insertB (insertA s b) b) ∧ Inv T (insertB (insertA s b) b).disk (insertB (insertA s b) b).mem (b :: c) := by
   have hsafe : Safe (insertB (insertA s b) b) := safe_insertB b _ (safe_writes _ s hs)
-  exact ⟨hsafe, (Out.of_alive (insertAB_spec hs.1 inv hp hy hh hn hT) hsafe.1).1⟩
+  exact ⟨hsafe, (Out.of_alive (insertAB_spec hs.1 inv hp hy hh hn hT hfresh) hsafe.1).1⟩
 
 theorem insertBlock_ext {T : Nat → Option Block} {s : St} {b y : Block} {c : List Block}
     (cont : St → Block → St)
@@ -191,7 +191,7 @@ theorem insertBlock_ext {T : Nat → Option Block} {s : St} {b y : Block} {c : L
       Safe (cont s' f) ∧ ∃ c'', Inv T (cont s' f).disk (cont s' f).mem c'' ∧ c' <:+ c'')
     (hs : Safe s) (inv : Inv T s.disk s.mem c) (hp : b.pre = y.hash) (hy : c.head? = some y)
     (hh : y.height < b.height) (hn : s.disk.blocks b.hash = none) (hT : T b.hash = some b)
-    (hv : s.mem.verified.contains b.hash = true) :
+    (hv : s.mem.verified.contains b.hash = true) (hfresh : ∀ z ∈ c, ∀ t ∈ b.txs, t ∉ z.txs) :
     Safe (insertBlock cont s b).1 ∧
     ∃ c', Inv T (insertBlock cont s b).1.disk (insertBlock cont s b).1.mem c' ∧ (b :: c) <:+ c' := by
   unfold insertBlock
@@ -199,7 +199,7 @@ theorem insertBlock_ext {T : Nat → Option Block} {s : St} {b y : Block} {c : L
   have hmem : (insertA s b).mem = s.mem := by simp [insertA]
   rw [hmem, hv]
   simp only [Bool.not_true, Bool.false_and]
-  obtain ⟨hsB, invB⟩ := insertAB_safe hs inv hp hy hh hn hT
+  obtain ⟨hsB, invB⟩ := insertAB_safe hs inv hp hy hh hn hT hfresh
   cases hf : (insertB (insertA s b) b).mem.future b.hash with
   | none =>
     simp only [Bool.false_eq_true, if_false]
@@ -249,7 +249,7 @@ theorem addCore_ext {T : Nat → Option Block} (vt : ValidTree T) :
         have hval := vt.parent b s.mem.latest hT (by rw [hpre]; exact inv.fromT _ hmemc)
         obtain ⟨h1, c', h2, h3⟩ := insertBlock_ext (fun s f => (addCore fuel s f).1)
           (fun s' f c' hs' inv' hTf hpf => ih s' f c' hs' inv' hTf hpf) hsv inv1 hpre inv.latest hval.1
-          (by rw [vs.1]; exact hnb) hT (vs.2.2.2.2 e2)
+          (by rw [vs.1]; exact hnb) hT (vs.2.2.2.2 e2) (fresh_on_chain vt inv.chain.linked inv.fromT inv.latest hpre hT)
         exact ⟨h1, c', h2, List.IsSuffix.trans (List.suffix_cons _ _) h3⟩
 
 /-- … and if the block is new and its verification is cached (the re-entry after a reorg), it is
@@ -279,6 +279,7 @@ theorem addCore_inserts {T : Nat → Option Block} (vt : ValidTree T) (fuel : Na
   have hval := vt.parent b s.mem.latest hT (by rw [hpre]; exact inv.fromT _ hmemc)
   exact insertBlock_ext (fun s f => (addCore fuel s f).1)
     (fun s' f c' hs' inv' hTf hpf => addCore_ext vt fuel s' f c' hs' inv' hTf hpf) hs inv hpre inv.latest hval.1 hnb hT hv
+    (fresh_on_chain vt inv.chain.linked inv.fromT inv.latest hpre hT)
 
 /-! ### the weight order of the property -/
 
